@@ -174,3 +174,64 @@ func (e *Engine) Enter(s Site, call *ast.CallExpr) (Site, bool) {
 	fr := e.enter(s, call, fn)
 	return Site{G: cg, At: cg.Entry(), Up: append([]Frame{fr}, s.Up...)}, true
 }
+
+// EnterFunc is Enter for a callee the rule resolved itself (a call through a
+// function value, a table of functions): the frame binds fn's parameters to
+// the call's arguments; with methodExpr the first argument is the receiver
+// (`(*T).M` called as `f(x, a, b)`), recv otherwise gives the receiver
+// expression of a method value (may be nil). The same bounds as for followed
+// helpers apply (module function with a body, depth, no recursion).
+func (e *Engine) EnterFunc(s Site, call *ast.CallExpr, fn *core.Fn, methodExpr bool, recv ast.Expr) (Site, bool) {
+	if fn == nil || fn.Decl == nil || fn.Decl.Body == nil || len(s.Up) >= e.MaxDepth || call.Ellipsis.IsValid() {
+		return Site{}, false
+	}
+	if e.Opaque != nil && e.Opaque(fn.Obj) {
+		return Site{}, false
+	}
+	cg := cfgq.Of(e.P, fn)
+	if cg == s.G {
+		return Site{}, false
+	}
+	for _, f := range s.Up {
+		if f.G == cg {
+			return Site{}, false
+		}
+	}
+	info := fn.Pkg.TypesInfo
+	args := call.Args
+	if methodExpr {
+		if len(args) == 0 {
+			return Site{}, false
+		}
+		recv, args = args[0], args[1:]
+	}
+	bind := map[types.Object]ast.Expr{}
+	i := 0
+	for _, fl := range fn.Decl.Type.Params.List {
+		if len(fl.Names) == 0 {
+			i++
+			continue
+		}
+		for _, nm := range fl.Names {
+			if i < len(args) {
+				if o := info.Defs[nm]; o != nil {
+					bind[o] = args[i]
+				}
+			}
+			i++
+		}
+	}
+	if recv != nil && fn.Decl.Recv != nil && len(fn.Decl.Recv.List) == 1 && len(fn.Decl.Recv.List[0].Names) == 1 {
+		if o := info.Defs[fn.Decl.Recv.List[0].Names[0]]; o != nil {
+			bind[o] = recv
+		}
+	}
+	fr := Frame{G: s.G, At: s.At, Call: call, Bind: bind}
+	return Site{G: cg, At: cg.Entry(), Up: append([]Frame{fr}, s.Up...)}, true
+}
+
+// WalkFrom is Walk for a region that is reached through the given frames
+// (the body of a function entered with Enter/EnterFunc).
+func (e *Engine) WalkFrom(s Site, region ast.Node, visit func(s Site, n ast.Node)) {
+	e.walk(s.G, region, s.Up, visit)
+}
